@@ -1165,7 +1165,7 @@ type secExpect struct {
 	invoked bool
 }
 
-var tokenPool = []string{"abc.def.ghi", "t0k3n", "Bearer abc.def", "bearer xyz", "é世-token", "a:b;c=d", "x+y/z==", "Basic notbasic"}
+var tokenPool = []string{"abc.def.ghi", "t0k3n", "Bearer abc.def", "bearer xyz", "é世-token", "a:b;c=d", "x+y/z==", "Basic notbasic", "Bearer a b c", "tok en  two"}
 var keyPool = []string{"k3y", "secret key", "é世", "a:b", "x+y/z==", "key with two spaces", "Bearer looks-like-a-token"}
 var userPool = []string{"alice", "bob smith", "é世", "u+1", "Al/ice"}
 var passPool = []string{"s3cret", "p:a:ss", "pass word", "é世&=", ""}
@@ -1364,7 +1364,11 @@ func judgeSecurity(o *engine.Outcome, w *world, d *spec.Design, s *spec.Service,
 			}
 			space := ""
 			if len(c.creds) > 0 && strings.Contains(c.creds[0], " ") {
-				space = ",contains-space"
+				// the known defect is exactly "everything up to the FIRST space is dropped"; any other loss is something else
+				space = ",contains-space-other-loss"
+				if w := c.creds[0]; len(g.creds) == 1 && g.creds[0] == w[strings.Index(w, " ")+1:] {
+					space = ",contains-space"
+				}
 			}
 			o.Violate("security_credential", fmt.Sprintf("security_credential:%s:in=%s%s", c.kind, loc, space), "%s: %s callback received %q, the client was given %q", where, c.scheme, g.creds, c.creds)
 			return
